@@ -10,7 +10,7 @@ TRACE_CFG = "VFTrace.cfg"
 ACCEPTORS = {"vf": ("VFTrace", "VFTrace.cfg"), "kern": ("KernTrace", "KernTrace.cfg"), "mark": ("MarkTrace", "MarkTrace.cfg")}
 RULE = ("random compatible families of 2-3 masters (Latin + combining marks, composites, per-master kerning with group and "
         "glyph keys, a pair present in one master only, per-master anchors) x {compileVariableTTF, compileVariableCFF2} x "
-        "variableFeatures on/off x production names; the variable font is instantiated with fontTools.varLib.instancer at every "
+        "variableFeatures on/off x production names x {default kern writer, kernFeatureWriter2 through the lib key}; the variable font is instantiated with fontTools.varLib.instancer at every "
         "full master's location and compared (a) with the interpolatable master (outline / advance deviation), (b) through the "
         "TLA+ GPOS interpreter with that master's UFO kerning and anchors; non-trivial = master is not the default; distinct by "
         "family digest + options + master")
@@ -30,7 +30,7 @@ def cases(tier, seed):
         fam = gen.rich_family(rng, n_masters=rng.choice([2, 3]))
         out.append({"cid": f"c10-{seed}-{k}", "lib": rng.choice(["ufoLib2", "defcon"]), "fam": fam,
                     "flavor": rng.choice(["tt", "cff2"]), "varFeatures": rng.random() < 0.6,
-                    "prodNames": rng.random() < 0.2})
+                    "prodNames": rng.random() < 0.2, "kern2": rng.random() < 0.25})
     return out
 
 
@@ -91,6 +91,14 @@ def execute(case):
     lib = case["lib"]
     fam = case["fam"]
     kw = {"variableFeatures": case["varFeatures"], "useProductionNames": case["prodNames"]}
+    if case.get("kern2"):
+        # the second kern writer, selected through the lib of every source (the variable-features path reads the default's)
+        fam = copy.deepcopy(fam)
+        for m in fam["masters"]:
+            if m.get("ufo"):
+                m["ufo"].setdefault("lib", {})["com.github.googlei18n.ufo2ft.featureWriters"] = [
+                    {"module": "ufo2ft.featureWriters.kernFeatureWriter2", "class": "KernFeatureWriter"},
+                    {"class": "MarkFeatureWriter"}, {"class": "GdefFeatureWriter"}, {"class": "CursFeatureWriter"}]
     ds = dsbuild.build_designspace(fam, lib)
     fonts = []
     for s in ds.sources:
